@@ -2,7 +2,7 @@
 """Regenerates MANIFEST.json from the table below (kept in one place so it is always schema-valid)."""
 import json, subprocess, sys
 
-H = "model-based (stateful) property-based testing: generated operation histories run against the real client and a reference tracker/model in lock-step under a virtual clock"
+H = "model-based (stateful) property-based testing: generated operation histories run against the real client and a reference tracker/model in lock-step under a virtual clock (proptest; the thorough tier adds a coverage-guided libFuzzer campaign over byte-encoded histories, target fz_history, with the same judge)"
 
 CLAIMED = {
  "C01": dict(
@@ -37,7 +37,7 @@ CLAIMED = {
    note="Accepted = validated decode returns the attribute, or its validate() over get_input_text is true. Collisions ignored. Key strings from OpaqueString-stable alphabets.",
    ref="3/C04"),
  "C10": dict(
-   technique="property-based testing with exhaustive single-bit / single-byte fault injection against an independent CRC-32, plus model-based client histories",
+   technique="property-based testing with exhaustive single-bit / single-byte fault injection against an independent CRC-32, plus model-based client histories (thorough tier adds the libFuzzer targets fz_client and fz_history)",
    category="fault_enumeration",
    text="Codec: the wire CRC of every generated message equals the reference CRC-32 of the prefix with adjusted length XOR 0x5354554e; every single-bit fault at every bit and four byte substitutions at every byte (exhaustive up to 300 bytes) must never be accepted as carrying a valid FINGERPRINT. Client: histories of a fingerprint-configured client under every credential mechanism check that every emitted packet ends with a valid FINGERPRINT and that nothing is delivered or completed by a message whose FINGERPRINT is absent, corrupted or misplaced.",
    note="Trusted: reference CRC (self-tested), reference codec, client model in sim/.",
@@ -66,7 +66,7 @@ CLAIMED = {
  "C07": dict(technique=H+"; short-term verdict model with independent HMAC verification of every sent and delivered message",
    text="Short-term clients (algorithm preset or learned) on both transports receive per-transaction reply sequences drawn from valid MI, valid SHA256, both, none, corrupted MAC, wrong password, non-agreed algorithm, duplicates, for responses, error responses and indications, interleaved with timers and further requests. Only-if direction for every delivery (verifies under the password with the reference HMAC, agreed algorithm, never both), if-direction for single valid replies, failure handling per transport, final reason protection-violated iff a failing response was seen, and USERNAME + verifying integrity on every emitted packet.",
    note="Marker after a both-attribute response unconstrained.", ref="3/C07"),
- "C08": dict(technique="model-based property-based testing against a reference RFC 8489 9.2.4 server (differential acceptance oracle) plus generic long-term histories",
+ "C08": dict(technique="model-based property-based testing against a reference RFC 8489 9.2.4 server (differential acceptance oracle) plus generic long-term histories (proptest; thorough tier adds the libFuzzer target fz_history)",
    text="Scripts of 1-6 exchanges: the reference server answers each client request with a generated behaviour (401 variants, 438, authenticated / unauthenticated / wrongly keyed success, other errors, malformed and non-conforming challenges, silence); every client request must satisfy the packet oracle (no credentials before a challenge; afterwards USERNAME or USERHASH, REALM, latest NONCE, offered PASSWORD-ALGORITHMS + a supported PASSWORD-ALGORITHM, verifying integrity of the right kind, never the password) and be accepted by the reference server while the client holds its current conforming challenge; deliveries must verify under the session key; 401/438 must yield Retry, indications are refused. Two recorded deviations are excluded by construction through lenient server branches and printed as KNOWN-FINDING.",
    note="Known findings F7/F8 listed in KNOWN_FINDINGS.txt; any other rejection by the reference server is a violation.", ref="3/C08, Appendix B"),
  "C11": dict(technique=H+"; notification accuracy against hook-observed timer entries and a bounded notification-following controller run for sufficiency",
